@@ -13,7 +13,9 @@ git apply "$sd/patch.diff" || { echo "patch does not apply"; exit 2; }
 go build ./... || { echo "build fails"; exit 2; }
 go test -vet=off -count=1 -run 'Demo' "./$dir/" > "$sd/demo_on_mutant.log" 2>&1; c2=$?
 rm "$dir/zz_demo_test.go"
-go test -vet=off -count=1 "./$dir/" > "$sd/pkg_tests_on_mutant.log" 2>&1; c3=$?
+# internal/cloud/repos has scale tests that fail / exceed the time limit on the clean tree as well: -short there
+short=""; case "$dir" in internal/cloud/repos*) short="-short";; esac
+go test -vet=off -count=1 $short -timeout 8m "./$dir/" > "$sd/pkg_tests_on_mutant.log" 2>&1; c3=$?
 git checkout -q -- . ; git clean -fdq
 echo "$(basename $sd): demo_on_clean_exit=$c1 (want 0) demo_on_mutant_exit=$c2 (want !=0) pkg_tests_on_mutant_exit=$c3 (want 0)" | tee "$sd/confirm.txt"
 tail -c 600 "$sd/demo_on_mutant.log" > "$sd/demo_on_mutant.tail"; rm -f "$sd/demo_on_mutant.log" "$sd/demo_on_clean.log" "$sd/pkg_tests_on_mutant.log"
